@@ -668,9 +668,14 @@ def rule_r3(ctx) -> List[R.Inst]:
 def _columnwise(fn, a):
     """pd.DataFrame({name: <formula> if name == "multiplier" else F[name] for name in <SV list>.df.columns}) ->
     (loop variable, formula, frame expression F, iterable) — the result is built column by column instead of copy / store / project"""
-    if not (isinstance(a, ast.Call) and call_name(a) == "DataFrame" and len(a.args) == 1 and isinstance(a.args[0], ast.DictComp) and not a.keywords):
+    if not (isinstance(a, ast.Call) and call_name(a) == "DataFrame" and len(a.args) == 1 and isinstance(a.args[0], ast.DictComp)):
         return None
     dc = a.args[0]
+    # index=F.index with F the frame the columns are taken from: the index those columns already have
+    if a.keywords and not (len(a.keywords) == 1 and a.keywords[0].arg == "index" and isinstance(a.keywords[0].value, ast.Attribute) and
+                           a.keywords[0].value.attr == "index" and isinstance(dc.value, ast.IfExp) and
+                           any(isinstance(x, ast.Subscript) and unparse(x.value) == unparse(a.keywords[0].value.value) for x in (dc.value.body, dc.value.orelse))):
+        return None
     if len(dc.generators) != 1 or dc.generators[0].ifs or not isinstance(dc.generators[0].target, ast.Name):
         return None
     v = dc.generators[0].target.id
@@ -687,6 +692,13 @@ def _columnwise(fn, a):
         return None
     if not (isinstance(other, ast.Subscript) and isinstance(other.slice, ast.Name) and other.slice.id == v):
         return None
+    if isinstance(body, ast.Name):
+        # the formula through a local bound once
+        ds = [x.value for x in walk_no_nested(fn.node) if isinstance(x, ast.Assign) and len(x.targets) == 1 and isinstance(x.targets[0], ast.Name) and
+              x.targets[0].id == body.id]
+        nst = sum(1 for x in ast.walk(fn.node) if isinstance(x, ast.Name) and x.id == body.id and isinstance(x.ctx, ast.Store))
+        if len(ds) == 1 and nst == 1:
+            body = ds[0]
     return v, body, other.value, dc.generators[0].iter
 
 
